@@ -173,7 +173,7 @@ def parse_rvalue(s):
     if s.startswith("&raw "):
         return ("ref", parse_place(s.split(" ", 2)[2]))
     if s.startswith("&mut "):
-        return ("ref", parse_place(s[5:]))
+        return ("ref", parse_place(s[5:]), "mut")
     if s.startswith("&"):
         rest = s[1:].strip()
         if rest.startswith("fake shallow "):
